@@ -99,9 +99,47 @@ def conv(node):
     raise ValueError("regex node %s" % name)
 
 
+SRE_IGNORECASE, SRE_LOCALE, SRE_MULTILINE, SRE_DOTALL, SRE_UNICODE, SRE_VERBOSE, SRE_ASCII = 2, 4, 8, 16, 32, 64, 256
+
+
+def has_category(node):
+    op, av = node
+    name = str(op)
+    if name == "CATEGORY":
+        return True
+    if isinstance(av, (list, tuple)) or hasattr(av, "__iter__") and not isinstance(av, (str, bytes)):
+        try:
+            for x in av:
+                if isinstance(x, tuple) and len(x) == 2 and has_category(x):
+                    return True
+                if hasattr(x, "__iter__") and not isinstance(x, (str, bytes, int)):
+                    for y in x:
+                        if isinstance(y, tuple) and len(y) == 2 and has_category(y):
+                            return True
+        except TypeError:
+            pass
+    return False
+
+
 def to_lean(pattern):
     try:
+        if not isinstance(pattern, (str, bytes)):
+            raise ValueError("not a pattern string: %s" % type(pattern).__name__)
         tree = sre_parse.parse(pattern)
+        # flags change what the nodes mean (case folding, what `.` `^` `$` \d \s match): the Lean semantics is the one
+        # of a pattern without flags; for str patterns \d and \s are Unicode-aware, which the byte-level classes are not
+        flags = tree.state.flags & ~SRE_VERBOSE
+        if isinstance(pattern, str):
+            flags &= ~SRE_UNICODE
+        if flags:
+            raise ValueError("pattern flags 0x%x are not modelled" % flags)
+        if "(?" in (pattern if isinstance(pattern, str) else pattern.decode("latin-1")):
+            import re as _re
+            txt = pattern if isinstance(pattern, str) else pattern.decode("latin-1")
+            if _re.search(r"\(\?[aiLmsux-]+[:)]", txt):
+                raise ValueError("inline flags are not modelled")
+        if isinstance(pattern, str) and any(has_category(n) for n in tree):
+            raise ValueError("Unicode-aware \\d / \\s in a str pattern are not modelled")
         return conv_seq(list(tree)), None
     except Exception as e:  # unmodelled construct: the dependent obligation fails
         return ".unmodelled %s" % lean_str(repr(pattern)), repr(e)
